@@ -264,6 +264,7 @@ func run(c Case) *pbt.Violation {
 	if byPub != nil && c.Stage == "playing" {
 		// let the healthy publisher feed the stream while the hostile peer is attached to it as a player
 		feedAt = w.prefixEnd
+		segs = splitAt(segs, feedAt)
 	}
 	off := 0
 	for _, n := range segs {
@@ -325,6 +326,21 @@ func run(c Case) *pbt.Violation {
 		return nil
 	}
 	return probe(s)
+}
+
+// splitAt adds a segment boundary at offset at.
+func splitAt(segs []int, at int) []int {
+	out := make([]int, 0, len(segs)+1)
+	off := 0
+	for _, n := range segs {
+		if off < at && at < off+n {
+			out = append(out, at-off, off+n-at)
+		} else {
+			out = append(out, n)
+		}
+		off += n
+	}
+	return out
 }
 
 func probe(s *inproc.Server) *pbt.Violation {
